@@ -18,7 +18,7 @@
 static ESL_RANDOMNESS *R;
 static ESL_RAND64 *R64;
 static ESL_ALPHABET *ABC_DNA, *ABC_AA;
-/* A case takes milliseconds. A shuffler that no longer terminates is cut off after 8 s and reported as a fault of that case
+/* A case takes milliseconds. A shuffler that no longer terminates is cut off after 15 s (generous: the machine may be heavily loaded) and reported as a fault of that case
  * (the process dies by SIGALRM). Each cut-off is recorded in a file in the run's private scratch directory (the cwd);
  * after three of them the remaining ops are answered "skipped-after-hangs" so that a broken tree is reported quickly. */
 static int h_skip;
@@ -29,7 +29,7 @@ static void on_alarm(int sig)
   if (fd >= 0) { if (write(fd, "x", 1) < 0) { } close(fd); }
   signal(SIGALRM, SIG_DFL); raise(SIGALRM);
 }
-static void h_case_begin(void) { struct stat st; h_skip = (stat("c18_hangs", &st) == 0 && st.st_size >= 3); signal(SIGALRM, on_alarm); alarm(8); }
+static void h_case_begin(void) { struct stat st; h_skip = (stat("c18_hangs", &st) == 0 && st.st_size >= 3); signal(SIGALRM, on_alarm); alarm(15); }
 static void h_case_end(void) { alarm(0); if (R) esl_randomness_Destroy(R); R = NULL; if (R64) esl_rand64_Destroy(R64); R64 = NULL; }
 
 static ESL_ALPHABET *get_abc(void)
